@@ -2,6 +2,8 @@
 server on the memory DB (C04, C11; later C05/C10/C12).  See harness/eng_proto.go. -/
 import YorkieModel.Driver.Proto
 import YorkieModel.Model.Server
+import YorkieModel.Model.ServerCompact
+import YorkieModel.Model.ServerFault
 namespace Yorkie.Driver.ProtoEngine
 open Yorkie Yorkie.Driver Yorkie.Server
 
@@ -154,5 +156,80 @@ def step (s : Server) (toks : List String) : Server × List String :=
   | _ => (s, ["bad-op"])
 
 def engine : Engine := { State := Server, init := Server.init, step := step }
+
+
+/-! ### engines `compact` (C10) and `faults` (C05): the `proto` commands plus
+
+  `CP k<key> force=<0|1>`                          `Yorkie.CompactDocument(ctx, key, force)`
+  `FLT call=<DB method> nth=<n> when=<before|after>` arm ONE fault for the next ATT/PP/DET/REM line
+
+(additions only: `step`/`engine` above are untouched and still serve the `proto` engine) -/
+namespace X
+open Yorkie Yorkie.Driver Yorkie.Server
+
+structure State where
+  s : Server := Server.init
+  /-- armed fault: DB method, n-th call of it inside the request, after? -/
+  armed : Option (String × Nat × Bool) := none
+
+def showCompactErr : CompactErr → String
+  | .documentNotFound => "documentNotFound"
+  | .documentAttached => "documentAttached"
+  | .contentMismatch => "contentMismatch"
+  | .invalidSize => "invalidSize"
+
+/-- which storage call of the request is the `nth` call of `method` (Model/ServerFault.lean header) -/
+def faultAt (attach : Bool) (method : String) (nth : Nat) : Option FaultAt :=
+  if method == "FindClientInfoByRefKey" && nth == 1 then some .handlerFindClient
+  else if method == "FindDocInfoByRefKey" then
+    (if attach then (if nth == 1 then some .pushFindDoc else none)
+     else if nth == 1 then some .handlerFindDoc else if nth == 2 then some .pushFindDoc else none)
+  else if nth != 1 then none
+  else if method == "CreateChangeInfos" then some .createChanges
+  else if method == "FindChangeInfosBetweenServerSeqs" then some .pullFindChanges
+  else if method == "UpdateMinVersionVector" then some .updateMinVV
+  else if method == "UpdateClientInfoAfterPushPull" then some .updateClientInfo
+  else if attach && method == "FindOrCreateDocInfo" then some .findOrCreateDoc
+  else if attach && method == "TryAttaching" then some .tryAttaching
+  else none
+
+def faultOf (attach : Bool) (armed : Option (String × Nat × Bool)) : Option Fault :=
+  match armed with
+  | none => none
+  | some (m, n, after) =>
+    match faultAt attach m n with
+    | some p => some { point := p, after := after }
+    | none => none
+
+def request (toks : List String) : Option Request :=
+  match toks with
+  | "ATT" :: c :: k :: _ =>
+    some (.attach (parseRef c) (parseRef k) (parsePack (parseRef c) toks) (flag toks "dp") (flag toks "nogc"))
+  | "PP" :: c :: d :: _ =>
+    some (.pushpull (parseRef c) (parseRef d) (parsePack (parseRef c) toks) (flag toks "pushonly") (flag toks "nogc"))
+  | "DET" :: c :: d :: _ => some (.detach (parseRef c) (parseRef d) (parsePack (parseRef c) toks))
+  | "REM" :: c :: d :: _ => some (.remove (parseRef c) (parseRef d) (parsePack (parseRef c) toks))
+  | _ => none
+
+def step (st : State) (toks : List String) : State × List String :=
+  match toks with
+  | "FLT" :: _ =>
+    ({ st with armed := some (arg toks "call", parseNatD (arg toks "nth"), arg toks "when" == "after") }, ["FLT ok"])
+  | "CP" :: k :: _ =>
+    let (s', r) := compactByKey tagSem (flag toks "force") st.s (parseRef k)
+    ({ st with s := s' },
+     [match r with | .ok _ => "C ok" | .error e => s!"C err={showCompactErr e}"])
+  | _ =>
+    match st.armed, request toks with
+    | some a, some req =>
+      let (s', r) := stepF (faultOf (toks.head? == some "ATT") (some a)) st.s req
+      ({ s := s', armed := none }, [showResult r])
+    | _, _ =>
+      let (s', out) := ProtoEngine.step st.s toks
+      ({ st with s := s' }, out)
+
+def engine : Engine := { State := State, init := {}, step := step }
+
+end X
 
 end Yorkie.Driver.ProtoEngine
